@@ -58,7 +58,7 @@ CHECKS["C20"] = ("model_checking", "bounded-exhaustive exploration of the real c
 CHECKS["C15"] = ("fault_enumeration", "exhaustive enumeration of (old config x new file content incl. every failure kind x request kind x history before x idle gap x continuation) on real files through the real Kanata::new / handle_time_ticks (virtual clock hook) / do_live_reload, driven by a transcription of the processing loop; differential oracles: failed reload vs a twin without reload keys, successful reload vs a fresh Kanata::new of the new file; message-channel and timing obligations",
   "For every enumerated case a reload that cannot load the file leaves behaviour identical to never having asked; a reload that can is applied exactly when allowed, announces itself once with the active layer, leaves nothing pressed, and afterwards the instance is indistinguishable (on the continuations) from a fresh start of the new file.",
   "continuations are bounded (<= 2 steps of 4 kinds); permission errors not producible; H3 clock injection checked per call", "DESIGN.md §4 C15")
-CHECKS["C12"] = ("bounded_model_checking", "exhaustive enumeration of (a) ordered pairs/triples of defseq sequences from an item grammar with shift chords and O- groups, parsed by the real parser and compared with prefix-freeness over the documented permutation expansion and with the stored trie (hook H4); (b) all unit histories (leader/key taps x gaps around the timeout) of bounded length on the real Kanata for 6 sequence sets x 3 input modes x 2 leader forms against a reference model of sequence mode predicting the exact order of OS presses; (c) all physically consistent press/release histories over {a,b,c,lsft} for chorded and overlapping sequences (strict token model / safety + canonical typings)",
+CHECKS["C12"] = ("model_checking", "exhaustive enumeration of (a) ordered pairs/triples of defseq sequences from an item grammar with shift chords and O- groups, parsed by the real parser and compared with prefix-freeness over the documented permutation expansion and with the stored trie (hook H4); (b) all unit histories (leader/key taps x gaps around the timeout) of bounded length on the real Kanata for 6 sequence sets x 3 input modes x 2 leader forms against a reference model of sequence mode predicting the exact order of OS presses; (c) all physically consistent press/release histories over {a,b,c,lsft} for chorded and overlapping sequences (strict token model / safety + canonical typings)",
   "For every explored table the parser accepts exactly the prefix-free sets and stores exactly the documented expansion; for every explored typing history a defined sequence taps its virtual key exactly once and leaves sequence mode, failing keys and timeouts end it without activation, hidden modes press none of the typed keys (delay-type types them only on failure), visible-backspaced sends one backspace per typed character, and nothing stays pressed.",
   "histories bounded (5-6 units / 6-7 events); timeout deadline band not exercised; where only a proper suffix of the typed keys still matches, both strict cancel and the implementation's backtracking are accepted", "DESIGN.md §4 C12")
 CHECKS["C16"] = ("translation_validation", "exhaustive enumeration of meaning-preserving rewrites (alias, var, zero-arg and identity templates, if-equal template, include, platform, deflayermap) at every applicable site of every program of the universe (bound 1) and every pair of sites (bound 2), each rewritten program parsed by the real parser and compared field by field with the original's parsed tables, plus lock-step execution of both on all physically consistent histories of depth 3 (thorough 4)",
